@@ -40,6 +40,7 @@ def build(tier, seed):
         for dt in DTS:
             cases.append({'rec': list(w), 'dt': dt})
     return {
+        'rule_more': 'one object walked through a sequence of dampings incl. the argument-free call; consecutive spectrum calls of the same size without / with a leading zero period (array functions, two objects of one length)',
         'cases': cases,
         'rule': 'every non-zero record over {-1,0,2} of length 2..%d x dt %s (one pool case each) x period lists (units of dt) %s x xi %s '
                 'x container {ndarray,list,tuple} x min_dt_ratio %s (+ a descending list on the object path); non-trivial = record x dt' % (
